@@ -1,8 +1,8 @@
 (** Extraction of the executable model to OCaml for the correspondence check.
     Only the ExtrOcamlBasic directives are used; nat/N/Z/positive stay Coq datatypes. *)
 From Coq Require Import Extraction ExtrOcamlBasic.
-From XV Require Import Base.Str Base.Num Doc.Tree Doc.Store Xp.Ast Xp.Nav Xp.Axes Xp.Values Xp.Funcs Xp.Eval Ad.JsonAdapter Ad.XmlAdapter Ad.XmlThm Ad.HtmlAdapter Unm.Unmarshal Cli.Cli Syn.Parse Syn.Render Syn.LexThm.
+From XV Require Import Base.Str Base.Num Doc.Tree Doc.Store Xp.Ast Xp.Nav Xp.Axes Xp.Values Xp.Funcs Xp.Eval Ad.JsonAdapter Ad.XmlAdapter Ad.XmlThm Ad.HtmlAdapter Unm.Unmarshal Cli.Cli Syn.Parse Syn.Render Syn.LexThm Syn.LexMin.
 Extraction Language OCaml.
 Extraction "xmodel.ml" build exec num_to_str str_to_num f_of_bits bits_of_f num_string_ok
   lookup string_value pos_of select path_ltb Z.add Z.mul Z.of_nat
-  read_json_result json_spec_tree read_xml dm_list read_html unmarshal_top cli_stdout parse_string parse_string_readings canonical_text.
+  read_json_result json_spec_tree read_xml dm_list read_html unmarshal_top cli_stdout parse_string parse_string_readings canonical_text_ws.
